@@ -22,3 +22,39 @@ package chain
 //@   ensures int(result) == self.accountStoreAt[address][identifier.Hash][identifier.Height]
 //@   ensures result != nil ==> result.address == address && result.frontierHash == identifier.Hash && result.frontierHeight == identifier.Height
 //@   modifies nothing
+
+// ---- C14: unconfirmed pool ---------------------------------------------------------------------------------------------
+// "when two candidates compete for a height the winner is chosen by the same antisymmetric rule (higher plasma ratio, then
+// smaller hash) on every node". Ratios are compared by cross-multiplication; verified blocks carry at most 10 500 000 plasma
+// (vm.enoughPlasma), which keeps the uint64 products exact.
+//@ spec plasmaBounded(b *nom.AccountBlock) bool = b.TotalPlasma <= 10500000 && b.BasePlasma <= 10500000
+//@ spec beats(a *nom.AccountBlock, b *nom.AccountBlock) bool = a.TotalPlasma * b.BasePlasma > b.TotalPlasma * a.BasePlasma || (a.TotalPlasma * b.BasePlasma == b.TotalPlasma * a.BasePlasma && bytescmp(a.Hash, b.Hash) < 0)
+
+//@ func higherPriority(a, b)
+//@   requires a != nil && b != nil && plasmaBounded(a) && plasmaBounded(b)
+//@   ensures[rule] result == nil <==> beats(a, b)
+//@   modifies nothing
+
+//@ lemma hp_antisymmetric
+//@   vars a *nom.AccountBlock, b *nom.AccountBlock
+//@   assume a != nil && b != nil && plasmaBounded(a) && plasmaBounded(b)
+//@   let r1 = higherPriority(a, b)
+//@   let r2 = higherPriority(b, a)
+//@   assert[never-both] !(r1 == nil && r2 == nil)
+//@   assert[total] a.Hash != b.Hash ==> (r1 == nil || r2 == nil)
+//@   assert[irreflexive] a.Hash == b.Hash && a.TotalPlasma == b.TotalPlasma && a.BasePlasma == b.BasePlasma ==> r1 != nil
+
+// "Momentum content offered for production never splits a contract's batch and never exceeds the per-momentum limit."
+//@ func accountPool.filterBlocksToCommit(ap, blocks)
+//@   requires forall i int :: 0 <= i && i < len(blocks) ==> blocks[i] != nil
+//@   ensures[limit] len(result) <= MaxAccountBlocksInMomentum
+//@   ensures[prefix] len(result) <= len(blocks) && forall i int :: 0 <= i && i < len(result) ==> result[i] == blocks[i]
+//@   ensures[whole-batches] len(result) == 0 || blocks[len(result) - 1].BlockType != 4
+//@   modifies nothing
+//@   loop 1
+//@     invariant fresh(toCommit) && fresh(batch) && toCommit.arr != batch.arr
+//@     invariant len(toCommit) + len(batch) == rangeindex + 1
+//@     invariant len(toCommit) <= MaxAccountBlocksInMomentum
+//@     invariant forall i int :: 0 <= i && i < len(toCommit) ==> toCommit[i] == blocks[i]
+//@     invariant forall i int :: 0 <= i && i < len(batch) ==> batch[i] == blocks[len(toCommit) + i]
+//@     invariant len(toCommit) == 0 || blocks[len(toCommit) - 1].BlockType != 4
